@@ -51,6 +51,20 @@ Definition mk_oprec {Op} (a : N) (o : Op) (deps : list nat) : oprec Op := OpRec 
 (** MerkleReg: the specified state of a received node set *)
 Definition merkle_spec (hash : mnode → N) (ns : list mnode) : merkle := spec_state (R_of hash ns).
 
+(** in-kernel cross-check of MerkleReg calls: the content-address function restricted to the nodes
+    that occur in the call (the driver maps each real SHA3 hash to an id; the table lists id and node) *)
+Definition mk_tbl (s : merkle) : list (N * mnode) := map_to_list (mk_dag s) ++ map_to_list (mk_orphans s).
+Definition tbl_hash (t : list (N * mnode)) (n : mnode) : N :=
+  match List.find (λ p, bool_decide (p.2 = n)) t with Some p => p.1 | None => 0 end.
+(** in-kernel cross-check of the codec model: the real serde_json output decodes to the state, and the
+    model's own encoding of the state decodes to it as well *)
+Definition codec_case {V} (dec_eq : EqDecision V) (c : codec V) (j : json) (v : V) : bool :=
+  bool_decide (dec c j = Some v) &&
+  match enc c v with Some je => bool_decide (dec c je = Some v) | None => false end.
+Definition glist_dec : EqDecision (list (list (Qc * N))) := _.
+Definition merkle_dec : EqDecision merkle := _.
+Definition vc_dec : EqDecision (gmap N N) := _.
+
 Definition vec_insert_at (i : nat) (x : N) (l : list N) : list N := insert_at i x l.
 Definition vec_remove_at (i : nat) (l : list N) : list N := remove_at i l.
 
